@@ -26,6 +26,7 @@ type Dims struct {
 	AllocBatches   bool    `json:"allocBatches"`
 	NKeys          int     `json:"nkeys"`
 	Paths          []string `json:"paths"`
+	Preload        []int   `json:"preload"` // keys the lower level holds (token 9) before the behaviour starts
 	ConcrProfile   string  `json:"concr"`
 	Seed           int64   `json:"seed"`
 }
@@ -74,6 +75,7 @@ type StepResult struct {
 // Result of one behaviour.
 type Result struct {
 	ID     int          `json:"id"`
+	Variant int         `json:"variant"`
 	Status string       `json:"status"` // "ok" | "mismatch" | "infra"
 	Infra  string       `json:"infra,omitempty"`
 	Steps  []StepResult `json:"steps,omitempty"`
@@ -104,6 +106,9 @@ type Session struct {
 	closeDone chan error
 	refs  []Content // expectations after each executed batch (TLC's, for prefix checks)
 	refsBeforeReopen []Content
+	heldStore     moss.Snapshot
+	heldStoreExp  Content
+	heldStoreOpen bool
 	life  string
 	failWrites int32
 	flog  *FileLog
@@ -147,6 +152,16 @@ func (s *Session) storeOptions() (moss.StoreOptions, moss.StorePersistOptions) {
 // goroutines parked at their gates.
 func (s *Session) Open() error {
 	Install()
+	if s.D.Mode == "store" && s.dir == "" {
+		dir, err := ioutil.TempDir(scratchBase(), "replay")
+		if err != nil {
+			return err
+		}
+		s.dir = dir
+		if err := s.preload(); err != nil { // before any gate exists
+			return fmt.Errorf("preload: %v", err)
+		}
+	}
 	s.sched = NewSched()
 	s.sched.Open("exec.beforeLock", "merger.beforeIngest", "close.beforeWait")
 	switch s.D.Mode {
@@ -180,11 +195,65 @@ func (s *Session) Open() error {
 		}
 		s.sched.Bind(c, st)
 		s.coll, s.store = c, st
+		// a store snapshot taken right after the open and held for the whole
+		// life of this incarnation (C02/C15): it must keep its content
+		if s.heldStore != nil {
+			s.heldStore.Close()
+		}
+		s.heldStore, _ = st.Snapshot()
+		s.heldStoreOpen = true
 	default:
 		return fmt.Errorf("unknown mode %q", s.D.Mode)
 	}
 	s.life = "open"
 	return s.sched.AwaitParked("merger.loop", stepTimeout)
+}
+
+// preload persists the initial content of the lower level (InitKeys of the
+// specification) with a plain, ungated store session.
+func (s *Session) preload() error {
+	if len(s.D.Preload) == 0 {
+		return nil
+	}
+	st, c, err := moss.OpenStoreCollection(s.dir, moss.StoreOptions{}, moss.StorePersistOptions{})
+	if err != nil {
+		return err
+	}
+	b, err := c.NewBatch(0, 0)
+	if err != nil {
+		return err
+	}
+	for _, k := range s.D.Preload {
+		b.Set(s.C.Keys[k-1], s.C.Bytes(Val{P: true, V: []int{9}}))
+	}
+	if err := c.ExecuteBatch(b, moss.WriteOptions{}); err != nil {
+		return err
+	}
+	b.Close()
+	deadline := time.Now().Add(stepTimeout)
+	for {
+		cs, _ := c.Stats()
+		if cs != nil && cs.TotPersisterLowerLevelUpdateEnd > 0 && cs.CurDirtyOps == 0 && cs.CurDirtySegments == 0 {
+			break
+		}
+		if time.Now().After(deadline) {
+			return fmt.Errorf("timeout waiting for the preload to persist")
+		}
+		time.Sleep(time.Millisecond)
+	}
+	if err := c.Close(); err != nil {
+		return err
+	}
+	if err := st.Close(); err != nil {
+		return err
+	}
+	s.heldStoreExp = emptyContent(s.D)
+	root := s.heldStoreExp[""]
+	for _, k := range s.D.Preload {
+		root.M[k-1] = Val{P: true, V: []int{9}}
+	}
+	s.heldStoreExp[""] = root
+	return nil
 }
 
 func scratchBase() string {
@@ -202,6 +271,10 @@ func (s *Session) Teardown() {
 	for id, ss := range s.snaps {
 		ss.Close()
 		delete(s.snaps, id)
+	}
+	if s.heldStore != nil {
+		s.heldStore.Close()
+		s.heldStore = nil
 	}
 	if s.life != "closed" && s.coll != nil {
 		done := make(chan struct{})
@@ -439,6 +512,19 @@ func (s *Session) pollStat(pred func(*moss.CollectionStats) bool) error {
 func (s *Session) Observe(idx int, st Step, full bool) StepResult {
 	r := StepResult{Step: idx, Act: st.Act}
 	exp := st.Exp
+	if s.heldStore != nil {
+		if s.heldStoreOpen { // first observation after the open: this is what the store held then
+			s.heldStoreOpen = false
+			if st.Act == "Reopen" {
+				s.heldStoreExp = exp.St
+			}
+		}
+		want := s.heldStoreExp
+		if want == nil {
+			want = emptyContent(s.D)
+		}
+		r.Mismatches = append(r.Mismatches, CheckSnapshot(s.heldStore, s.C, want, s.D.Paths, "heldstore")...)
+	}
 	// open snapshots (C02): always re-read
 	for id, ss := range s.snaps {
 		if id-1 < len(exp.Snaps) && exp.Snaps[id-1].Open {
